@@ -127,7 +127,11 @@ func runBacktrace(prog *ssa.Program, pkgs []*packages.Package, cfgPath string, r
 				continue
 			}
 			o := tr[0].Pos
-			r.Traces = append(r.Traces, fmt.Sprintf("%s/%s:%d>%s", filepath.Base(filepath.Dir(o.Filename)), filepath.Base(o.Filename), o.Line, e))
+			mark := ""
+			if g, ok := tr[0].GraphNode.(*dataflow.AccessGlobalNode); ok && !g.IsWrite {
+				mark = "@globalread" // the trace ends at a read of a global for which no write location is known
+			}
+			r.Traces = append(r.Traces, fmt.Sprintf("%s/%s:%d%s>%s", filepath.Base(filepath.Dir(o.Filename)), filepath.Base(o.Filename), o.Line, mark, e))
 		}
 	}
 	r.Traces = uniq(r.Traces)
